@@ -21,6 +21,7 @@
 (***************************************************************************)
 EXTENDS Marshal, TLC
 
+CONSTANTS PrevModes, HowModes          \* which reuse / option settings are explored (subsets of the three / two values below)
 CONSTANTS Docs0, MaxOps, EditOps      \* EditOps: set of <<kind, payload>> as in Edit.tla (set operations) plus <<"del", 0>>
 
 VARIABLES docs0, text0, copy, hist, docsO, docsC, cloned, scribbled,
@@ -57,7 +58,7 @@ NewDoc(ds, p, k, x) ==
 
 Init == /\ docs0 \in Docs0 /\ text0 = SourceText(docs0) /\ copy \in BOOLEAN
         /\ hist = <<>> /\ docsO = docs0 /\ docsC = <<>> /\ cloned = FALSE /\ scribbled = FALSE
-        /\ prev \in {"fresh", "copy", "nocopy"} /\ how \in {"explicit", "default"} /\ (how = "default" => copy)
+        /\ prev \in PrevModes /\ how \in HowModes /\ (how = "default" => copy)
 
 Scribble == /\ ~scribbled /\ copy          \* only claimed when strings were copied
             /\ scribbled' = TRUE /\ hist' = Append(hist, [op |-> "scribble"])
